@@ -414,6 +414,9 @@ class parallel_config:
         setattr(_backend, "config", self.parallel_config)
 
     def _check_backend(self, backend, inner_max_num_threads, **backend_params):
+        if backend is None:
+            # The documented default: the same as leaving it out.
+            backend = default_parallel_config["backend"]
         if backend is default_parallel_config["backend"]:
             if inner_max_num_threads is not None or len(backend_params) > 0:
                 raise ValueError(
